@@ -74,7 +74,11 @@ def elem_traces(job, tid0):
         for e in (1, 2, 3):
             evs.append(ev("pow", a, e=e))
     rnd = lambda: r.getrandbits(128)     # noqa: E731
-    sparse = lambda: sum(1 << r.randrange(128) for _ in range(r.randrange(1, 4)))   # noqa: E731
+    def sparse():
+        v = 0
+        for _ in range(r.randrange(1, 4)):
+            v |= 1 << r.randrange(128)
+        return v
     for _ in range(job["n_mul"]):
         evs.append(ev("mul", rnd(), r.choice([rnd(), rnd(), sparse(), r.choice(B)])))
     for _ in range(job["n_inv"]):
